@@ -150,11 +150,11 @@ def run_verus_unit(uname, workdir, prop=None):
             for s in d.get('spans', []):
                 if s.get('label') and 'failed this postcondition' in s['label']:
                     clause_line = s['line_start']
-        elif kind.startswith('inv'):
+        elif kind.startswith('inv') or kind == 'assert':
             clause_line = line
         if clause_line:
             # labels sit at the end of the clause's (last) line
-            for l in range(clause_line, min(clause_line + 12, len(ulines) + 1)):
+            for l in range(clause_line, min(clause_line + (1 if kind == 'assert' else 12), len(ulines) + 1)):
                 m = re.search(r'// \[([^\]]+)\]', ulines[l - 1])
                 if m:
                     label = m.group(1)
